@@ -434,12 +434,121 @@ def rule_toc_gather(ctx):
                 "of one section are taken from different positions" % (odd[1], odd[0], reads[0][1], reads[0][0]), fn=f, pos=odd[2][-2])
 
 
+def rule_primitives(ctx):
+    """the U64 and F16 readers, evaluated from MIR against a scripted bit source, read the format's layout and produce its values"""
+    import struct
+    from .. import absint
+    rid = "R-PRIMITIVE"
+    ctx.rule(rid, "Bitstream::read_u64 and read_f16_as_f32 are evaluated from MIR with Bitstream::read_bits replaced by a scripted source "
+                  "that records the width of every read.  U64 (ISO/IEC 18181-1 U64()): selector u(2); 0 -> 0; 1 -> 1 + u(4); 2 -> 17 + "
+                  "u(8); 3 -> u(12), then while u(1): 8 more bits at shift 12, 20, .. 52, and 4 bits at shift 60, after which it stops - "
+                  "both the value and the sequence of read widths are compared for every selector and every number of continuation "
+                  "groups 0..7.  F16: 320 bit patterns (every exponent, five mantissas, both signs): the value equals IEEE 754 "
+                  "binary16, NaN / infinity are an error, and exactly 16 bits are read")
+    cr = ctx.prog.crate("jxl_bitstream")
+    f64_ = [g for g in cr.fn_list if g.path.endswith("Bitstream::<'_>::read_u64") or g.path.endswith("Bitstream::read_u64")]
+    f16_ = [g for g in cr.fn_list if g.path.endswith("::read_f16_as_f32") and "Bitstream" in g.path]
+    if len(f64_) != 1 or len(f16_) != 1:
+        ctx.anchor_missing(rid, "jxl_bitstream::bitstream::Bitstream::read_u64 / read_f16_as_f32")
+        return
+
+    def run(f, script):
+        log, it = [], iter(script)
+
+        def rb(args):
+            n = args[1] if len(args) > 1 else None
+            log.append(n)
+            try:
+                v = next(it)
+            except StopIteration:
+                raise absint.Unsupported("the function reads more often than the definition (%d reads so far: %s)" % (len(log), log))
+            return absint.Enum("core::result::Result", 0, "Ok", [v & ((1 << n) - 1) if isinstance(n, int) else v])
+        ev = absint.Evaluator(ctx.prog)
+        ev.intercept = {"Bitstream::<'_>::read_bits": rb, "Bitstream::read_bits": rb}
+        r = ev.call_fn(f, [absint.Ref(("ext", "bitstream"))])
+        return r, log
+
+    # U64
+    f = f64_[0]
+    ctx.seen(f)
+    cases = [([0], 0, [2]), ([1, 5], 6, [2, 4]), ([1, 15], 16, [2, 4]), ([2, 0], 17, [2, 8]), ([2, 255], 272, [2, 8])]
+    for k in range(0, 8):
+        script, widths, val = [3, 0xabc], [2, 12], 0xabc
+        for g in range(k):
+            last = g == 6
+            byte = (0x91 + 17 * g) & (0xf if last else 0xff)
+            script += [1, byte]
+            widths += [1, 4 if last else 8]
+            val |= byte << (12 + 8 * g)
+        if k < 7:
+            script += [0]
+            widths += [1]
+        cases.append((script, val, widths))
+    cases.append(([3, 0xfff] + [1, 0xff] * 6 + [1, 0xf], (1 << 64) - 1, [2, 12] + [1, 8] * 6 + [1, 4]))
+    rows, bad = 0, None
+    for script, val, widths in cases:
+        try:
+            r, log = run(f, script + [0] * 4)
+        except absint.Unsupported as e:
+            bad = ("not-evaluable", str(e))
+            break
+        rows += 1
+        got = r.fields[0] if isinstance(r, absint.Enum) and r.name == "Ok" else None
+        if got != val or log != widths:
+            bad = ("layout", "script %s: value %s with reads %s, the definition gives %d with reads %s" % (script, got, log, val, widths))
+            break
+    bad_any = bool(bad)
+    if bad:
+        ctx.bad(rid, "read_u64|" + bad[0], "Bitstream::read_u64: " + bad[1], fn=f)
+    else:
+        ctx.ok(rid, "read_u64", "%d scripts: value and read widths equal U64()" % rows, nontrivial=True, fn=f)
+    # F16
+    g = f16_[0]
+    ctx.seen(g)
+    rows16, bad = 0, None
+    for sign in (0, 1):
+        for e in range(32):
+            for m in (0, 1, 0x155, 0x200, 0x3ff):
+                v = (sign << 15) | (e << 10) | m
+                try:
+                    r, log = run(g, [v, 0, 0])
+                except absint.Unsupported as ex:
+                    bad = ("not-evaluable", str(ex))
+                    break
+                rows16 += 1
+                if e == 31:
+                    ok = isinstance(r, absint.Enum) and r.name == "Err"
+                    want = "an error"
+                else:
+                    want = struct.unpack("<e", struct.pack("<H", v))[0]
+                    got = r.fields[0] if isinstance(r, absint.Enum) and r.name == "Ok" else None
+                    ok = isinstance(got, (int, float)) and float(got) == want and (got != 0 or (struct.pack("<f", float(got))[3] >> 7) == sign)
+                if not ok or log != [16]:
+                    bad = ("value", "bit pattern 0x%04x: %s with reads %s, binary16 gives %s with one 16-bit read" % (v, r, log, want))
+                    break
+            if bad:
+                break
+        if bad:
+            break
+    bad_any = bad_any or bool(bad)
+    if bad:
+        ctx.bad(rid, "read_f16_as_f32|" + bad[0], "Bitstream::read_f16_as_f32: " + bad[1], fn=g)
+    else:
+        ctx.ok(rid, "read_f16_as_f32", "%d bit patterns equal IEEE 754 binary16" % rows16, nontrivial=True, fn=g)
+    ctx.count(rid + ".rows", rows + rows16)
+    if rows + rows16 >= 14 + 320 or not bad_any:
+        ctx.floor(rid + ".rows", 14 + 320)
+
+
 def main(pid, tier, repo=None):
     ctx = Ctx(pid, tier, configs=("workspace",), repo=repo)
     rule_bitspec(ctx)
     rule_hdrpred(ctx)
     rule_bitbuf(ctx)
     rule_toc_gather(ctx)
+    rule_primitives(ctx)
+    from . import c12
+    c12.rule_unpack_value(ctx)
     specconst.run(ctx, pid)
     from . import enummap
     enummap.run(ctx, pid)
